@@ -52,7 +52,7 @@ TEXTS = {
  'C14': ('Reader: on each of the four load paths a stored CRC that differs from the CRC of exactly compressed_page_size stored bytes yields CRC_MISMATCH before any decompression/decoding, with page state unchanged and nothing leaked; equal/absent/disabled never yields a CRC error. Writer: finalize checksums exactly the bytes appended after the header and writes the crc field iff write_crc. Error-detection lemmas on the bit-serial definition (linearity, zero-input injectivity, 32-bit window) proved; CRC function == bit-serial IEEE definition where the crc32 jobs are live.',
          'Trusted: stubs of parse/codec/stdio in the page jobs; paper induction combining the burst lemmas; slicing-by-8 block identity if listed as assumed. "Every file, every damage position" is the composition of these contracts, done on paper.'),
  'C15': ('Dispatcher: for every capability mask each slot is non-NULL, in the set the mask allows (ISA subset incl. avx512bw/vl), override order scalar < SSE < AVX2 < AVX-512, idempotent, wrappers pass arguments unchanged. Scalar kernels and SSE4.2 kernels: in-bounds accesses for every count and equality with the definition (ghost index / lockstep ghost), under C models of the body-less SSE builtins.',
-         'Trusted: stubs/ia32_model.c (SSE builtins from the Intel SDM, cross-checked natively on 2e6 vectors each), CPUID stub. AVX2/AVX-512 kernel bodies are not under contract (n/a part); kernel domain for pack_bools is bytes in {0,1}.'),
+         'Trusted: stubs/ia32_model.c (21 builtin models written from the Intel SDM, cross-checked natively against the hardware on 2e6 vectors each), CPUID stub. Of the AVX2/AVX-512 kernels only pack_bools/unpack_bools are under contract (bounded in count 0..130); the other AVX kernels are not (n/a part). Bounded jobs (byte-stream split float, match copy/length, small memset/memcpy) are reported under coverage.bounded. Kernel domain for pack_bools is bytes in {0,1}.'),
  'C16': ('row_group_matches: no false negative for every type, operator, probe (NaN included), present/absent new and deprecated fields, short statistics; filter_row_groups: exactly the ascending list of might-match-or-error groups up to the cap; column_statistics pins each (pointer, length) to its Thrift field; builder add_values / add_nulls / build and page-writer update_statistics: true bounds in the type order, NaN ignored, widening only; compare / range_overlaps / page_might_match free of false negatives.',
          'Trusted: memcmp/memcpy exact-for-small stubs, CBMC IEEE model. Byte-array order proved for lengths <= 8 (bounded) plus length-unbounded safety; builder FLBA/INT96 loops not under contract.'),
  'C17': ('Builder add_column / add_group from an arbitrary invariant-satisfying state (no-growth case): counts, leaf index, stored name/type/repetition/type_length/logical type, max_def == (OPTIONAL||REPEATED), max_rep == REPEATED, earlier entries unchanged; node accessors; file schemas by cases: leaf case records def/rep = inherited + own contribution, group case passes the right levels to children (twin contract), build_schema array sizes.',
@@ -71,9 +71,9 @@ NA = {
     'C07': 'CBMC contract machinery is sequential (OpenMP pragmas dropped, no schedule quantifier)',
 }
 
-ENABLE = ['C02', 'C04', 'C11', 'C12', 'C13', 'C14', 'C16', 'C17', 'C18', 'C19']   # properties whose checks pass on the unchanged tree (filled in as families are integrated)
+ENABLE = ['C02', 'C04', 'C11', 'C12', 'C13', 'C14', 'C15', 'C16', 'C17', 'C18', 'C19']   # properties whose checks pass on the unchanged tree (filled in as families are integrated)
 
-PENDING = ['C09', 'C10', 'C15']
+PENDING = ['C09', 'C10']
 
 
 ENABLED = sorted(set(list(CLAIMED) + [p for p in TEXTS if os.path.exists(os.path.join(ROOT, 'evidence', p + '.json.ok'))]))
